@@ -7,7 +7,7 @@ from __future__ import annotations
 
 from hypothesis import strategies as st
 
-from vlib import gen_maps, pipeline, xmap_text
+from vlib import gen_maps, join_unit, pipeline, xmap_text
 from vlib.core import Sub, Violation, req
 from vlib.oracles import valid_matching
 
@@ -15,7 +15,8 @@ PROPERTY = "C08"
 RULE = ("generated CMAP sets biased to partial, chimeric, indel and repeat queries, run in all four output modes with -diff in "
         "{0,1000,20000,100000} or set adaptively to g / g-1 where g is the reference gap of an observed first/second-pass pair; "
         "non-trivial = case with >=1 joined record or >=1 first/second-pass pair of one query on one reference and strand that "
-        "was not joined; distinct = distinct case")
+        "was not joined; join-unit: first-pass row of a molecule with an indel / one-label slip + second-pass row of its own fragment "
+        "through AlignmentResults.resolve (non-trivial = a joined row); distinct = distinct case")
 ASSUMPTIONS = ["'best' mode's main file is not compared with the other modes (it may hold the better of the two passes or its own join)",
                "whether an eligible pair is joined at all is not asserted; only joined => justified and faithful",
                "reference gap = max(0, max(RefStartPos) - min(RefEndPos)) from the file text (one decimal)"]
@@ -33,6 +34,24 @@ def sans_id(line):
 
 def gap_of(f, s):
     return max(0.0, max(float(f["RefStartPos"]), float(s["RefStartPos"])) - min(float(f["RefEndPos"]), float(s["RefEndPos"])))
+
+
+def union_signature(a_pairs, b_pairs, joined_pairs):
+    """the union of the parts is a valid matching but the joined record is not it: which root cause?
+    'joined-drops-pair-lying-in-a-gap-of-the-other-part' when every missing pair belongs to one part only and both its
+    labels fall strictly inside the other part's label range without being paired there (the parts interleave: one part
+    pairs a label that the other part's segment spans as unpaired) - known finding F13; anything else is the general
+    'joined-not-the-valid-union'"""
+    a, b = set(a_pairs), set(b_pairs)
+    missing = (a | b) - set(joined_pairs)
+
+    def in_gap(pair, other):
+        r, q = pair
+        rs, qs = [x for x, _ in other], [y for _, y in other]
+        return bool(other) and min(rs) < r < max(rs) and r not in rs and min(qs) < q < max(qs) and q not in qs
+    if missing and all((p in a and p not in b and in_gap(p, b)) or (p in b and p not in a and in_gap(p, a)) for p in missing):
+        return "joined-drops-pair-lying-in-a-gap-of-the-other-part"
+    return "joined-not-the-valid-union"
 
 
 def check_modes(case, probe=True):
@@ -95,7 +114,7 @@ def check_modes(case, probe=True):
         u = sorted(union)
         if valid_matching(u, jr["Orientation"], bounds=False):
             cl.append("union-valid")
-            req(list(jp) == u, "joined-not-the-valid-union",
+            req(list(jp) == u, union_signature(f["pairs"], s["pairs"], jp),
                 f"query {q}: the union of the parts is a valid matching of {len(u)} pairs but the joined record lists {len(jp)}; missing {sorted(union - set(jp))[:8]}")
         else:
             cl.append("union-invalid")
@@ -127,6 +146,49 @@ def check_modes(case, probe=True):
     return {"nontrivial": bool(njoined or nelig), "classes": sorted(set(cl))}
 
 
+def check_join_unit(case):
+    """AlignmentResults.resolve on a first-pass row and the second-pass row of one of its own fragments (see
+    vlib/join_unit.py): joined => same reference and strand, gap <= maxDifference, pairs a subset of the parts' union and
+    equal to it when the union is a valid matching; every part is either returned un-joined or went into the one joined
+    row; the parts themselves are left as they were (mode 'all' writes them after the join)"""
+    jr = join_unit.run(case)
+    cl = [f"mode={case['mode']}", "rev" if case["rev"] else "fwd"]
+    nt = False
+    for st_ in jr.steps:
+        a, b, joined, separate = st_["a"], st_["b"], st_["joined"], st_["separate"]
+        where = f"resolve({st_['kind']}, fragment shift/labels {st_['fragment']}, maxDifference {case['maxdiff']})"
+        req(len(joined) <= 1, "two-joined-records-for-one-query", f"{where}: {len(joined)} joined rows")
+        after = (join_unit.snapshot(a), join_unit.snapshot(b))
+        req(after == st_["before"], "join-mutates-its-parts",
+            lambda: f"{where}: the single-pass rows changed while being joined: pairs {st_['before'][0][0][-4:]} / {st_['before'][1][0][:4]} -> {after[0][0][-4:]} / {after[1][0][:4]}")
+        if joined:
+            cl.append("joined")
+            nt = True
+            j = joined[0]
+            req(not separate, "single-pass-record-both-joined-and-unjoined", f"{where}: a joined row and {len(separate)} un-joined rows")
+            req(a.referenceId == b.referenceId == j.referenceId, "joined-across-references", f"{where}: references {a.referenceId}/{b.referenceId} -> {j.referenceId}")
+            req(a.orientation == b.orientation == j.orientation, "joined-across-strands", f"{where}: orientations {a.orientation}/{b.orientation} -> {j.orientation}")
+            g = max(0.0, max(a.referenceStartPosition, b.referenceStartPosition) - min(a.referenceEndPosition, b.referenceEndPosition))
+            req(g <= case["maxdiff"] + 1e-6, "joined-beyond-maxdifference", f"{where}: parts {g} bp apart")
+            union = set(join_unit.pairs_of(a)) | set(join_unit.pairs_of(b))
+            jp = join_unit.pairs_of(j)
+            req(set(jp) <= union, "joined-invents-pairs", f"{where}: joined row has pairs not in either part: {sorted(set(jp) - union)[:6]}")
+            u = sorted(union)
+            if valid_matching(u, j.orientation, bounds=False):
+                cl.append("union-valid")
+                req(jp == u, union_signature(join_unit.pairs_of(a), join_unit.pairs_of(b), jp),
+                    lambda: f"{where}: the union of the parts is a valid matching of {len(u)} pairs but the joined row lists {len(jp)}; missing {sorted(union - set(jp))[:8]}")
+            else:
+                cl.append("union-invalid")
+        else:
+            req(len(separate) == 2 and all(x is a or x is b for x in separate) and (a is b or separate[0] is not separate[1]),
+                "single-pass-record-lost", f"{where}: not joined, but the rows returned un-joined are not the two parts ({len(separate)} rows)")
+            cl.append("not-joined")
+    if not jr.steps:
+        cl.append("no-second-pass")
+    return {"nontrivial": nt, "classes": sorted(set(cl))}
+
+
 @st.composite
 def strategy(draw):
     case = draw(gen_maps.pipeline_case(flank_repeat=2, modes=["all"], kinds=KINDS, max_queries=5,
@@ -139,4 +201,7 @@ def subchecks(tier):
     q = tier == "quick"
     return [Sub("four-modes", "hyp", check_modes, strategy=strategy, examples=320 if q else 8000, shrink_budget=60,
                 describe="same input in best/separate/joined/all + boundary probe", sample_filter=gen_maps.short_case,
-                required_classes=("joined", "union-valid", "boundary-probe"))]
+                required_classes=("joined", "union-valid", "boundary-probe")),
+            Sub("join-unit", "hyp", check_join_unit, strategy=join_unit.join_case, examples=12000 if q else 300000, shrink_budget=600,
+                describe="AlignmentResults.resolve on a first-pass row and the second-pass row of its own fragment (unit level)",
+                required_classes=("joined", "not-joined", "union-valid"))]
